@@ -19,15 +19,16 @@ func execOrthoRouting(g *graph.DGraph, routes []routableEdge, params graph.Param
 
 		for i := 1; i < len(r.ns); i++ {
 			sp := startPoint(r.ns[i-1])
-			// virtual nodes have 0 size; another solution here is to consider the layer Y instead of the node Y
+			// virtual nodes have 0 size, so leave from the bottom of their own layer
 			if r.ns[i-1].IsVirtual {
-				sp[1] += layerh
+				sp[1] += g.Layers[r.ns[i-1].Layer].H
 			}
-			r.Points = append(r.Points, sp)
-			r.Points = append(r.Points, [2]float64{sp[0], sp[1] + halfLayerSpacing})
-
 			ep := endPoint(r.ns[i])
-			r.Points = append(r.Points, [2]float64{ep[0], ep[1] - halfLayerSpacing})
+			// both bends lie halfway between the two layers, also when the upper node is shorter than its layer
+			bendY := ep[1] - halfLayerSpacing
+			r.Points = append(r.Points, sp)
+			r.Points = append(r.Points, [2]float64{sp[0], bendY})
+			r.Points = append(r.Points, [2]float64{ep[0], bendY})
 			r.Points = append(r.Points, ep)
 		}
 	}
